@@ -501,3 +501,17 @@ def closures_in_term(t, out=None):
         for a in t[1]:
             closures_in_term(a, out)
     return out
+
+
+def mentions_deep(F, t, needle):
+    """mentions(), also looking at the calls made by closure bodies constructed inside the term"""
+    if mentions(t, needle):
+        return True
+    for cid in closures_in_term(t):
+        g = F.fns.get(cid)
+        if g is None:
+            continue
+        for c in g.calls():
+            if needle in (c.target_path or "") or needle == (c.method or ""):
+                return True
+    return False
